@@ -104,13 +104,15 @@ def run_history(case, scratch, on_eval, stub=False):
                 res = sess.eval(stp[1], stp[2])
                 on_eval(si, cur, stp[1], stp[2], res)
             elif k in ("edit", "revert"):
+                names_before = [f["name"] for f in cur["funcs"]]
                 if k == "edit":
                     cur = M.apply_edit(cur, stp[1])
                 else:
                     cur = snaps[stp[1]]
                 snaps.append(cur)
                 if stp[2]:
-                    sess.inproc_edit(cur)
+                    # a name disappeared from the source: the modules are imported afresh (a reload would keep the old object)
+                    sess.inproc_edit(cur, fresh=names_before != [f["name"] for f in cur["funcs"]])
                 else:
                     sess.write(cur)
                     sess.restart()
@@ -177,6 +179,7 @@ def check_case(case, ev=None, scratch=None, stub_check=False):
                         res = sess.eval(stp[1], stp[2])
                         on_eval(si, cur, stp[1], stp[2], res)
                     elif k in ("edit", "revert"):
+                        names_before = [f["name"] for f in cur["funcs"]]
                         if k == "edit":
                             tk, ti = M.edit_target(stp[1])
                             cl = M.closure(cur, root0)
@@ -188,7 +191,7 @@ def check_case(case, ev=None, scratch=None, stub_check=False):
                             nt["edited_inside"] = nt["edited_inside"] or nt["evaluated"]
                         snaps.append(cur)
                         if stp[2]:
-                            sess.inproc_edit(cur)
+                            sess.inproc_edit(cur, fresh=names_before != [f["name"] for f in cur["funcs"]])
                         else:
                             sess.write(cur)
                             sess.restart()
